@@ -224,10 +224,17 @@ def host_flag(kinds):
     return "override" if "override" in kinds else ("host" in kinds)
 
 
+AFFINITY = {"leaf": "leafdot", "dotted": "dotted", "package": "package", "simple": "plain"}
+
+
 def pick_source(rnd, declkind, runner):
-    while True:
-        src, kinds = SOURCES[rnd.choice(ACTIVE_SOURCES)][:2]
-        return src, kinds
+    """Any source may be built in any environment; more than half of the time one whose bindings meet the environment's declarations."""
+    want = AFFINITY.get(declkind)
+    if want and rnd.random() < 0.6:
+        close = [i for i in ACTIVE_SOURCES if want in SOURCES[i][1]]
+        if close:
+            return SOURCES[rnd.choice(close)][:2]
+    return SOURCES[rnd.choice(ACTIVE_SOURCES)][:2]
 
 
 def random_history(acc, zy, rnd, length):
@@ -273,6 +280,8 @@ def systematic(acc, zy, rnd, ctx):
                 pi = h.op_program(ei, src, False)
                 if pi is not None:
                     h.op_evaluate(pi, dict(BINDINGS[bk][0]))
+                    if len(BINDINGS[bk]) > 2:
+                        h.op_evaluate(pi, dict(BINDINGS[bk][1]))
                     h.op_evaluate(pi, dict(BINDINGS[bk][-1]))
     acc.exhaustive.append("all ordered pairs of (runner, declaration kind) environment creations" + (" and all triples" if ctx.thorough else " and a sample of triples"))
 
